@@ -24,6 +24,8 @@ mod replay_protection;
 mod serialize;
 mod server;
 mod token;
+#[cfg(feature = "verif")]
+pub mod verif;
 
 pub use client::{ClientAuthentication, DisconnectReason, NetcodeClient};
 pub use crypto::generate_random_bytes;
